@@ -176,9 +176,15 @@ def run(pid, tier, seed, scratch, t0):
             violations.append((o, f, r))
 
     wall = time.time() - t0
-    discharged = len([o for o in owned if not o['failures'] and not o.get('undecided')])
+    # an obligation counts against this property only through failures this property owns; obligations whose only owned
+    # failures are listed known findings are reported separately and are not part of the proof claim
+    failed_names = set(o['name'] for o, f, r in violations)
+    known_names = set(o['name'] for o, f, k in known_hits) - failed_names
+    known_obligations = [o for o in owned if o['name'] in known_names]
+    owned = [o for o in owned if o['name'] not in known_names]
+    discharged = len([o for o in owned if o['name'] not in failed_names and not o.get('undecided')])
     level = plan.PLAN[pid].get('level', 'proof')
-    samples = [dict(obligation=o['name'], contract=o.get('contract', ''), status='failed' if o['failures'] else 'discharged')
+    samples = [dict(obligation=o['name'], contract=o.get('contract', ''), status='failed' if o['name'] in failed_names else 'discharged')
                for o in owned[:6]]
     ev = dict(
         property_id=pid, tier=tier, seed=seed, level=level,
@@ -195,6 +201,7 @@ def run(pid, tier, seed, scratch, t0):
             unclaimed_parts=plan.PLAN[pid].get('unclaimed', []),
             extraction=extraction,
             known_findings=[k['what'] for _, _, k in known_hits],
+            known_finding_obligations=[o['name'] for o in known_obligations],
             undecided=undecided,
             open_obligations=sorted(set(x for r in results for x in r.get('open_obligations', []))),
             explanation=plan.PLAN[pid].get('explanation', ''),
